@@ -279,3 +279,8 @@ func VerifC05_BlueGreenDeploymentInitializeKeepsTheSavedSettings() {
 	}
 	verifrt.Cover("C05.bgdeploy.reinitialize.done")
 }
+
+// VerifC05_BlueGreenDeploymentFinalizeRestoresHPAWhateverFails: the exit is only over when the user's autoscaler is
+// back, also when API calls fail on the way (a failed HPA lookup is not "the workload has no HPA"): Finalize reports
+// done only with the HPA restored — the executor never calls it again afterwards.
+func VerifC05_BlueGreenDeploymentFinalizeRestoresHPAWhateverFails() { c05Finalize(true, "C05") }
